@@ -92,7 +92,12 @@ class Ctx:
             "lean_generated_changed": (self.prep or {}).get("gen", ""),
             "prepare_s": round((self.prep or {}).get("prepare_s", 0.0), 1),
         }
-        infra.write_evidence(self.prop, self.tier, self.seed, cov, wall, len(self.violations), CHECKS[self.prop].get("assumptions", []))
+        level = "proof" if self.obligations > 0 else "exploration"
+        if level == "exploration":
+            for k in ("obligations", "discharged"):
+                cov.pop(k, None)
+            cov["distinct_nontrivial"] = max(cov["distinct_nontrivial"], 0)
+        infra.write_evidence(self.prop, self.tier, self.seed, cov, wall, len(self.violations), CHECKS[self.prop].get("assumptions", []), level=level)
 
 
 # --------------------------------------------------------------------------------------------------
